@@ -13,6 +13,15 @@ package main
 //        an optional `duration` form field is sent along (the handlers document one but must not obey it blindly)
 //        -> <status> <Duration ns chosen by the parameter parser | -> <tb> <ta> <notBefore> <notAfter> [<NotAfter-NotBefore of the presented certificate, ns | ->]
 //   aws  -> <status> - <tb> <ta> <notBefore> <notAfter>
+//   ca <offset seconds>   -> ok
+//        replaces the user CA certificate(s) and the role-requesting CA certificate by ones (same keys, same
+//        subjects, made by the repo's own generator) whose validity is shifted by the offset, i.e. what the daemon
+//        holds when it was unsealed while the clock read now+offset (clock stepped back since, or not yet reached).
+//        0 restores the originals.  All following ops run under these CA certificates.
+//   seq <ssh|x509|k8s> <bootstrap|totp|direct|twice> <login age s> <q|m> <hex duration | ~>
+//        a session: password login `age` seconds ago (cookie iat = exp-16h), then NOW a real second-factor step-up
+//        through the named handler (twice: TOTP then bootstrap OTP), then the certificate request with the cookie the
+//        step-up handed back  -> like cg, with <iat> = the LOGIN moment, plus <iat of the cookie presented to certgen>
 //   secs <int64 ns>
 //        -> decimal value of uint64(time.Duration(ns).Seconds()) as computed by this platform
 
@@ -45,6 +54,7 @@ import (
 	"github.com/Cloud-Foundations/keymaster/lib/webapi/v0/proto"
 	"github.com/go-jose/go-jose/v4"
 	"github.com/go-jose/go-jose/v4/jwt"
+	"github.com/pquerna/otp/totp"
 	"golang.org/x/crypto/ssh"
 )
 
@@ -135,6 +145,57 @@ func vfC03X509Window(body []byte) (string, string) {
 	return strconv.FormatInt(c.NotBefore.Unix(), 10), strconv.FormatInt(c.NotAfter.Unix(), 10)
 }
 
+// vfC03ShiftCA re-issues a self-signed CA certificate with its validity shifted by d.
+func vfC03ShiftCA(t *testing.T, der []byte, signer crypto.Signer, d time.Duration) []byte {
+	c, err := x509.ParseCertificate(der)
+	if err != nil {
+		t.Fatal(err)
+	}
+	tmpl := *c
+	tmpl.NotBefore = c.NotBefore.Add(d)
+	tmpl.NotAfter = c.NotAfter.Add(d)
+	tmpl.SignatureAlgorithm = x509.UnknownSignatureAlgorithm
+	out, err := x509.CreateCertificate(rand.Reader, &tmpl, &tmpl, signer.Public(), signer)
+	if err != nil {
+		t.Fatal(err)
+	}
+	return out
+}
+
+// vfC03Window serves one certificate request and decodes the validity window of the answer.
+func vfC03Window(state *RuntimeState, req *http.Request, ty string) (status string, va, vb string, tb, ta int64) {
+	tb = time.Now().UnixNano()
+	rr, p := vfServe(state.certGenHandler, req)
+	ta = time.Now().UnixNano()
+	va, vb = "-", "-"
+	if p != nil {
+		return "PANIC", va, vb, tb, ta
+	}
+	if rr.Code == 200 {
+		if ty == "ssh" {
+			pk, _, _, _, err := ssh.ParseAuthorizedKey(rr.Body.Bytes())
+			if c, ok := pk.(*ssh.Certificate); err == nil && ok {
+				va, vb = strconv.FormatUint(c.ValidAfter, 10), strconv.FormatUint(c.ValidBefore, 10)
+			} else {
+				va, vb = "undecodable", "undecodable"
+			}
+		} else {
+			va, vb = vfC03X509Window(rr.Body.Bytes())
+		}
+	}
+	return strconv.Itoa(rr.Code), va, vb, tb, ta
+}
+
+func vfC03CookieFrom(rr *httptest.ResponseRecorder) *http.Cookie {
+	var out *http.Cookie
+	for _, ck := range rr.Result().Cookies() {
+		if ck.Name == authCookieName {
+			out = &http.Cookie{Name: authCookieName, Value: ck.Value}
+		}
+	}
+	return out
+}
+
 func TestVerifC03(t *testing.T) {
 	vio := vfOpen(t)
 	defer vio.close()
@@ -180,6 +241,67 @@ func TestVerifC03(t *testing.T) {
 		t.Fatal(err)
 	}
 	awsSeq := 0
+	origCA := append([][]byte{}, state.caCertDer...)
+	origRoleCA := append([]byte{}, state.selfRoleCaCertDer...)
+	state.Config.Base.EnableLocalTOTP = true
+	totpKey, err := totp.Generate(totp.GenerateOpts{Issuer: "verif", AccountName: "username"})
+	if err != nil {
+		t.Fatal(err)
+	}
+	totpEnc, err := state.encryptWithPublicKeys([]byte(totpKey.Secret()))
+	if err != nil {
+		t.Fatal(err)
+	}
+	// one second-factor step-up through a real handler; returns the cookie the handler set
+	stepUp := func(kind string, cookie *http.Cookie) (*http.Cookie, string) {
+		profile := &userProfile{U2fAuthData: map[int64]*u2fAuthData{}, TOTPAuthData: map[int64]*totpAuthData{}}
+		if kind == "bootstrap" { // only honoured for users without any registered second factor
+			profile.BootstrapOTP = bootstrapOTPData{ExpiresAt: time.Now().Add(time.Minute), Sha512Hash: testBootstrapOtpHash[:]}
+		} else {
+			profile.TOTPAuthData[1] = &totpAuthData{Enabled: true, CreatedAt: time.Now(), EncryptedSecret: totpEnc}
+		}
+		if err := state.SaveUserProfile("username", profile); err != nil {
+			t.Fatal(err)
+		}
+		state.totpLocalTateLimitMutex.Lock()
+		state.totpLocalRateLimit = make(map[string]totpRateLimitInfo)
+		state.totpLocalTateLimitMutex.Unlock()
+		form := url.Values{}
+		var h http.HandlerFunc
+		path := ""
+		switch kind {
+		case "bootstrap":
+			form.Set("OTP", testBootstrapOTP)
+			h, path = state.BootstrapOtpAuthHandler, bootstrapOtpAuthPath
+		case "totp":
+			code, err := totp.GenerateCode(totpKey.Secret(), time.Now())
+			if err != nil {
+				t.Fatal(err)
+			}
+			form.Set("OTP", code)
+			h, path = state.TOTPAuthHandler, totpAuthPath
+		case "direct":
+			h = func(w http.ResponseWriter, r *http.Request) {
+				if _, err := state.updateAuthCookieAuthlevel(w, r, AuthTypePassword|AuthTypeU2F); err != nil {
+					w.WriteHeader(500)
+				}
+			}
+			path = "/"
+		default:
+			return nil, "bad-stepup"
+		}
+		req := vfFormPost(path, form)
+		req.AddCookie(cookie)
+		rr, p := vfServe(h, req)
+		if p != nil {
+			return nil, "stepup-panic"
+		}
+		ck := vfC03CookieFrom(rr)
+		if ck == nil {
+			return nil, fmt.Sprintf("stepup-failed-%d", rr.Code)
+		}
+		return ck, ""
+	}
 
 	for _, line := range vio.ops {
 		f := strings.Fields(line)
@@ -188,6 +310,101 @@ func TestVerifC03(t *testing.T) {
 			continue
 		}
 		switch f[0] {
+		case "ca":
+			if len(f) != 2 {
+				vio.emit("bad-op")
+				continue
+			}
+			off, err := strconv.ParseInt(f[1], 10, 64)
+			if err != nil {
+				vio.emit("bad-op")
+				continue
+			}
+			if off == 0 {
+				state.caCertDer = append([][]byte{}, origCA...)
+				state.selfRoleCaCertDer = append([]byte{}, origRoleCA...)
+			} else {
+				state.caCertDer = nil
+				for _, der := range origCA {
+					state.caCertDer = append(state.caCertDer, vfC03ShiftCA(t, der, state.Signer, time.Duration(off)*time.Second))
+				}
+				state.selfRoleCaCertDer = vfC03ShiftCA(t, origRoleCA, state.Signer, time.Duration(off)*time.Second)
+			}
+			vio.emit("ok")
+		case "seq":
+			if len(f) != 6 {
+				vio.emit("bad-op")
+				continue
+			}
+			age, err := strconv.ParseInt(f[3], 10, 64)
+			if err != nil || age < 0 || age >= maxAgeSecondsAuthCookie {
+				vio.emit("bad-op")
+				continue
+			}
+			q := url.Values{}
+			var fields [][2]string
+			keyData := testUserSSHPublicKey
+			switch f[1] {
+			case "ssh":
+			case "x509":
+				q.Set("type", "x509")
+				keyData = testUserPEMPublicKey
+			case "k8s":
+				q.Set("type", "x509-kubernetes")
+				keyData = testUserPEMPublicKey
+			default:
+				vio.emit("bad-op")
+				continue
+			}
+			parsed := "absent"
+			if f[5] != "~" {
+				d, ok := vfUnhex(f[5])
+				if !ok {
+					vio.emit("bad-op")
+					continue
+				}
+				if pd, err := time.ParseDuration(d); err != nil {
+					parsed = "err"
+				} else {
+					parsed = strconv.FormatInt(int64(pd), 10)
+				}
+				if f[4] == "q" {
+					q.Set("duration", d)
+				} else {
+					fields = append(fields, [2]string{"duration", d})
+				}
+			}
+			// the login, `age` seconds ago: exactly the cookie setNewAuthCookie minted then
+			t0 := time.Now().Unix() - age
+			cookie := vfC03Cookie(t, state, "username", AuthTypePassword, t0, t0, t0+maxAgeSecondsAuthCookie)
+			var kinds []string
+			switch f[2] {
+			case "twice":
+				kinds = []string{"totp", "bootstrap"}
+			default:
+				kinds = []string{f[2]}
+			}
+			fail := ""
+			for _, k := range kinds {
+				var msg string
+				cookie, msg = stepUp(k, cookie)
+				if cookie == nil {
+					fail = msg
+					break
+				}
+			}
+			if fail != "" {
+				vio.emit("%s %s %d 0 0 - - -", fail, parsed, t0*1000000000)
+				continue
+			}
+			presentedIat := "?"
+			if info, err := state.getAuthInfoFromAuthJWT(cookie.Value); err == nil {
+				presentedIat = strconv.FormatInt(info.IssuedAt.Unix(), 10)
+			}
+			req := vfC03KeyRequest("/certgen/username", q, fields, keyData)
+			req.AddCookie(cookie)
+			status, va, vb, tb, ta := vfC03Window(state, req, f[1])
+			vio.emit("%s %s %d %d %d %s %s %s", status, parsed, t0*1000000000, tb, ta, va, vb, presentedIat)
 		case "secs":
 			if len(f) != 2 {
 				vio.emit("bad-op")
